@@ -28,7 +28,7 @@
 // spherical map is driven through the public component functions SphericalTransform::range/azimut/
 // elevation instead (the same arithmetic, compiles on the unrepaired tree).
 #ifndef C10_FLOAT_TOSPHERICAL
-#define C10_FLOAT_TOSPHERICAL 1
+#define C10_FLOAT_TOSPHERICAL 0
 #endif
 
 namespace rc = romea::core;
@@ -40,8 +40,12 @@ static const LD PITCH_LIM_L = PI_L / 2 - 1e-3L;
 static const LD R20_LIM_L = 1 - 1e-6L;
 
 // ---- tolerance constants (units of eps(Scalar)); see DESIGN 2.6 and the calibration in checks/C10.py
-static const LD K_BUILD = 16;     // entries of a rotation built from angles, Frobenius
-static const LD K_PROPER = 16;    // ||R R^T - I||_F and |det - 1|
+// A matrix made from a quaternion whose squared norm is 1 + e is R + e (R - I) (Eigen's toRotationMatrix assumes a unit
+// quaternion), so its distance to R is <= 2 sqrt(2) |e| and ||M M^T - I||_F = |e| ||2I - R - R^T||_F <= 4 sqrt(2) |e|;
+// |e| <= 16 eps for a product of three rounded half-angle quaternions (observed: 2.8 eps).
+static const LD K_BUILD = 16;     // quaternion coefficients, SmartRotation3D::R entries (Frobenius)
+static const LD K_BUILD_Q = 48;   // matrix obtained through the quaternion: 2 sqrt(2) * 16, rounded up
+static const LD K_PROPER = 96;    // ||M M^T - I||_F and |det - 1|: 4 sqrt(2) * 16, rounded up
 static const LD K_EULER = 48;     // extracted angle, times 1/cos(pitch)
 static const LD K_ROT = 64;       // R -> angles -> R, Frobenius, times 1/cos(pitch)
 static const LD K_NORM = 32;      // normaliser congruence (2 additions of the double 2*pi + 1 rounding)
@@ -180,23 +184,28 @@ template<class S> static LD ulp_at(LD x)       // spacing of S at magnitude x (x
   return ldexpl(1.0L, e - std::numeric_limits<S>::digits);
 }
 
-// name of an oracle for this Scalar; the strings are interned so that c_str() stays valid
-template<class S> static const char * on(const char * base)
+// std::string for a string literal without a heap allocation per use (keyed by the literal's address)
+static const std::string & istr(const char * lit)
 {
-  static std::map<std::string, std::string> names;
-  auto it = names.find(base);
-  if (it == names.end()) {it = names.emplace(base, std::string(base) + Tr<S>::sfx()).first;}
-  return it->second.c_str();
+  static std::map<const void *, std::string> m;
+  auto it = m.find(lit);
+  if (it == m.end()) {it = m.emplace(lit, lit).first;}
+  return it->second;
 }
+
+// name of an oracle for this Scalar ("<base>.d" / "<base>.f"), built once per call site (S must be in scope)
+#define ON(base) ([]() -> const char * {static const std::string n = std::string(base) + Tr<S>::sfx(); return n.c_str();}())
 
 // an angle strictly inside (-lim, lim) as a real number
 template<class S> static S inside_open(S v, LD lim)
 {
+  if (fabsl((LD)v) > lim) {v = std::copysign((S)lim, v);}
   while (fabsl((LD)v) >= lim) {v = toward0(v);}
   return v;
 }
 template<class S> static S inside_closed(S v, LD lim)
 {
+  if (fabsl((LD)v) > lim) {v = std::copysign((S)lim, v);}
   while (fabsl((LD)v) > lim) {v = toward0(v);}
   return v;
 }
@@ -249,9 +258,9 @@ template<class S> static void check_proper3(
   vh::Ctx & c, const M3 & R, const char * who, const std::function<vh::Params()> & params,
   const std::function<std::string()> & wit)
 {
-  auto w = [&]() {return vh::J().s("matrix", who).raw("R", jm3(R)).raw("case", wit()).str();};
-  c.expect_le(on<S>("proper.orthonormal"), orth_defect(R), K_PROPER * eps<S>(), "not_proper_rotation", params, w);
-  c.expect_le(on<S>("proper.det"), fabsl(det3(R) - 1), K_PROPER * eps<S>(), "not_proper_rotation", params, w);
+  const std::function<std::string()> w = [&]() {return vh::J().s("matrix", who).raw("R", jm3(R)).raw("case", wit()).str();};
+  c.expect_le(ON("proper.orthonormal"), orth_defect(R), K_PROPER * eps<S>(), "not_proper_rotation", params, w);
+  c.expect_le(ON("proper.det"), fabsl(det3(R) - 1), K_PROPER * eps<S>(), "not_proper_rotation", params, w);
 }
 
 // ------------------------------------------------------------------------------------------------
@@ -288,20 +297,20 @@ template<class S> static void euler_case(vh::Ctx & c, vh::Rng & r)
     } else {yaw = pick_turn_angle<S>(r, (int)r.range(0, 2));}
   }
   int nz = (roll != 0) + (pitch != 0) + (yaw != 0);
-  c.cat(cat);
+  c.cat(istr(cat));
   c.distinct(vh::hash_doubles({1.0, Tr<S>::id(), (double)roll, (double)pitch, (double)yaw}), !axis_only && nz >= 2);
 
   LD lr = roll, lp = pitch, ly = yaw;
   LD cp = cosl(lp);
-  auto params = [&]() {
+  const std::function<vh::Params()> params = [&]() {
       return vh::Params{{"scalar", Tr<S>::id()}, {"roll", (double)roll}, {"pitch", (double)pitch},
         {"yaw", (double)yaw}, {"cos_pitch", (double)cp}};
     };
-  auto wit = [&]() {
+  const std::function<std::string()> wit = [&]() {
       return vh::J().s("cat", cat).s("scalar", Tr<S>::sfx() + 1).f("roll", (LD)roll).f("pitch", (LD)pitch)
              .f("yaw", (LD)yaw).str();
     };
-  c.sample(cat, wit);
+  c.sample(istr(cat), wit);
 
   const M3 Ro = oracle_R(lr, lp, ly);
   const V3 a(roll, pitch, yaw);
@@ -309,8 +318,8 @@ template<class S> static void euler_case(vh::Ctx & c, vh::Rng & r)
   // ---- angles -> rotation matrix
   const Mat3 R = rc::eulerAnglesToRotation3D<S>(a);
   const M3 Rl = toM3(R);
-  if (!c.expect(on<S>("finite"), finite3(Rl), "nonfinite", params, wit)) {return;}
-  c.expect_le(on<S>("build.euler_matrix_vs_zyx"), frob(Rl, Ro), K_BUILD * eps<S>(), "builders_disagree", params, [&]() {
+  if (!c.expect(ON("finite"), finite3(Rl), "nonfinite", params, wit)) {return;}
+  c.expect_le(ON("build.euler_matrix_vs_zyx"), frob(Rl, Ro), K_BUILD_Q * eps<S>(), "builders_disagree", params, [&]() {
       return vh::J().s("builder", "eulerAnglesToRotation3D").raw("got", jm3(Rl)).raw("zyx", jm3(Ro)).raw("case", wit()).str();
     });
   check_proper3<S>(c, Rl, "eulerAnglesToRotation3D", params, wit);
@@ -319,9 +328,9 @@ template<class S> static void euler_case(vh::Ctx & c, vh::Rng & r)
   {
     const V3 b = rc::rotation3DToEulerAngles<S>(R);
     bool fin = std::isfinite(b[0]) && std::isfinite(b[1]) && std::isfinite(b[2]);
-    if (c.expect(on<S>("finite"), fin, "nonfinite", params, wit)) {
+    if (c.expect(ON("finite"), fin, "nonfinite", params, wit)) {
       LD d = std::max(cdiff(b[0], lr), std::max(cdiff(b[1], lp), cdiff(b[2], ly)));
-      c.expect_le(on<S>("euler.angles_matrix_angles"), d, K_EULER * eps<S>() / cp, "euler_roundtrip", params, [&]() {
+      c.expect_le(ON("euler.angles_matrix_angles"), d, K_EULER * eps<S>() / cp, "euler_roundtrip", params, [&]() {
           return vh::J().s("via", "matrix").f("roll_back", (LD)b[0]).f("pitch_back", (LD)b[1]).f("yaw_back", (LD)b[2])
                  .raw("case", wit()).str();
         });
@@ -335,7 +344,7 @@ template<class S> static void euler_case(vh::Ctx & c, vh::Rng & r)
     Q4 qo = oracle_q(lr, lp, ly);
     LD dm = sqrtl(powl(ql.w - qo.w, 2) + powl(ql.x - qo.x, 2) + powl(ql.y - qo.y, 2) + powl(ql.z - qo.z, 2));
     LD dp = sqrtl(powl(ql.w + qo.w, 2) + powl(ql.x + qo.x, 2) + powl(ql.y + qo.y, 2) + powl(ql.z + qo.z, 2));
-    c.expect_le(on<S>("build.quaternion_vs_zyx"), std::min(dm, dp), K_BUILD * eps<S>(), "builders_disagree", params, [&]() {
+    c.expect_le(ON("build.quaternion_vs_zyx"), std::min(dm, dp), K_BUILD * eps<S>(), "builders_disagree", params, [&]() {
         return vh::J().s("builder", "eulerAnglesToQuaternion").f("w", ql.w).f("x", ql.x).f("y", ql.y).f("z", ql.z)
                .f("ow", qo.w).f("ox", qo.x).f("oy", qo.y).f("oz", qo.z).raw("case", wit()).str();
       });
@@ -347,9 +356,9 @@ template<class S> static void euler_case(vh::Ctx & c, vh::Rng & r)
     Eigen::Quaternion<S> qs(q.w() * scale, q.x() * scale, q.y() * scale, q.z() * scale);
     const V3 e = rc::quaternionToEulerAngles<S>(qs);
     bool fin = std::isfinite(e[0]) && std::isfinite(e[1]) && std::isfinite(e[2]);
-    if (c.expect(on<S>("finite"), fin, "nonfinite", params, wit)) {
+    if (c.expect(ON("finite"), fin, "nonfinite", params, wit)) {
       LD d = std::max(cdiff(e[0], lr), std::max(cdiff(e[1], lp), cdiff(e[2], ly)));
-      c.expect_le(on<S>("euler.angles_quaternion_angles"), d, K_EULER * eps<S>() / cp, "euler_roundtrip", params, [&]() {
+      c.expect_le(ON("euler.angles_quaternion_angles"), d, K_EULER * eps<S>() / cp, "euler_roundtrip", params, [&]() {
           return vh::J().s("via", "quaternion").f("scale", (LD)scale).f("roll_back", (LD)e[0]).f("pitch_back", (LD)e[1])
                  .f("yaw_back", (LD)e[2]).raw("case", wit()).str();
         });
@@ -367,14 +376,14 @@ template<class S> static void euler_case(vh::Ctx & c, vh::Rng & r)
     if (how == 3) {reused.init(Eigen::Vector3d((double)roll, (double)pitch, (double)yaw));}
     const Eigen::Matrix3d & Rs = how == 0 ? fresh.R() : how == 1 ? fromv.R() : reused.R();
     const M3 Rsl = toM3(Rs);
-    c.count(how >= 2 ? "smart_rotation_reinitialised" : "smart_rotation_fresh");
+    c.count(istr(how >= 2 ? "smart_rotation_reinitialised" : "smart_rotation_fresh"));
     if (c.expect("finite.d", finite3(Rsl), "nonfinite", params, wit)) {
-      auto w = [&]() {
+      const std::function<std::string()> w = [&]() {
           return vh::J().s("builder", "SmartRotation3D::R").f("construction", how).raw("got", jm3(Rsl)).raw("zyx", jm3(Ro))
                  .raw("euler_matrix", jm3(Rl)).raw("case", wit()).str();
         };
       c.expect_le("build.smart_vs_zyx.d", frob(Rsl, Ro), K_BUILD * eps<double>(), "builders_disagree", params, w);
-      c.expect_le("build.smart_vs_euler_matrix.d", frob(Rsl, Rl), 2 * K_BUILD * eps<double>(), "builders_disagree", params, w);
+      c.expect_le("build.smart_vs_euler_matrix.d", frob(Rsl, Rl), (K_BUILD + K_BUILD_Q) * eps<double>(), "builders_disagree", params, w);
       check_proper3<double>(c, Rsl, "SmartRotation3D::R", params, wit);
     }
   }
@@ -435,44 +444,49 @@ template<class S> static void rotation_case(vh::Ctx & c, vh::Rng & r, bool as_qu
       ql = random_unit_q(r);       // outside the stated domain (probability ~1e-6): draw another rotation
     }
   } else {
-    M3 Rl = R_of_q(ql);
-    for (int i = 0; i < 3; ++i) {for (int j = 0; j < 3; ++j) {Rs(i, j) = (S)Rl.m[i][j];}}
-    while (fabsl((LD)Rs(2, 0)) > R20_LIM_L) {Rs(2, 0) = toward0(Rs(2, 0));}   // <= 1 ulp, stays a rotation to rounding
+    for (;;) {
+      M3 Rl = R_of_q(ql);
+      for (int i = 0; i < 3; ++i) {for (int j = 0; j < 3; ++j) {Rs(i, j) = (S)Rl.m[i][j];}}
+      if (fabsl(Rl.m[2][0]) <= R20_LIM_L) {break;}
+      ql = random_unit_q(r);       // outside the stated domain (probability ~1e-6): draw another rotation
+    }
+    // rounding to Scalar may lift R(2,0) over the limit by half an ulp: step back (stays a rotation to rounding)
+    while (fabsl((LD)Rs(2, 0)) > R20_LIM_L) {Rs(2, 0) = toward0(Rs(2, 0));}
     Rin = toM3(Rs);
   }
   LD r20 = Rin.m[2][0];
   LD cp = sqrtl((1 - r20) * (1 + r20));
-  c.cat(cat);
+  c.cat(istr(cat));
   {
     uint64_t h = vh::hash_doubles({as_quaternion ? 3.0 : 2.0, Tr<S>::id(), (double)scale});
     for (int i = 0; i < 3; ++i) {for (int j = 0; j < 3; ++j) {h = vh::hash_add(h, (double)Rin.m[i][j]);}}
     c.distinct(h, !axis_only);
   }
-  auto params = [&]() {
+  const std::function<vh::Params()> params = [&]() {
       return vh::Params{{"scalar", Tr<S>::id()}, {"r20", (double)r20}, {"cos_pitch", (double)cp},
         {"quaternion_input", as_quaternion ? 1.0 : 0.0}, {"scale", (double)scale}};
     };
-  auto wit = [&]() {
+  const std::function<std::string()> wit = [&]() {
       vh::J j;
       j.s("cat", cat).s("scalar", Tr<S>::sfx() + 1).raw("R_in", jm3(Rin));
       if (as_quaternion) {j.f("qw", (LD)qs.w()).f("qx", (LD)qs.x()).f("qy", (LD)qs.y()).f("qz", (LD)qs.z());}
       return j.str();
     };
-  c.sample(cat, wit);
+  c.sample(istr(cat), wit);
 
   const V3 ang = as_quaternion ? rc::quaternionToEulerAngles<S>(qs) : rc::rotation3DToEulerAngles<S>(Rs);
   bool fin = std::isfinite(ang[0]) && std::isfinite(ang[1]) && std::isfinite(ang[2]);
-  if (!c.expect(on<S>("finite"), fin, "nonfinite", params, wit)) {return;}
-  auto witb = [&]() {
+  if (!c.expect(ON("finite"), fin, "nonfinite", params, wit)) {return;}
+  const std::function<std::string()> witb = [&]() {
       return vh::J().f("roll", (LD)ang[0]).f("pitch", (LD)ang[1]).f("yaw", (LD)ang[2]).raw("case", wit()).str();
     };
 
   // ---- back to a matrix
   const Mat3 R2 = rc::eulerAnglesToRotation3D<S>(ang);
   const M3 R2l = toM3(R2);
-  if (!c.expect(on<S>("finite"), finite3(R2l), "nonfinite", params, witb)) {return;}
+  if (!c.expect(ON("finite"), finite3(R2l), "nonfinite", params, witb)) {return;}
   const LD tol = K_ROT * eps<S>() / cp;
-  c.expect_le(on<S>(as_quaternion ? "rotation.quaternion_angles_matrix" : "rotation.matrix_angles_matrix"),
+  c.expect_le((as_quaternion ? ON("rotation.quaternion_angles_matrix") : ON("rotation.matrix_angles_matrix")),
     frob(R2l, Rin), tol, "rotation_roundtrip", params, [&]() {
       return vh::J().s("back", "eulerAnglesToRotation3D").raw("R_back", jm3(R2l)).raw("case", witb()).str();
     });
@@ -484,8 +498,8 @@ template<class S> static void rotation_case(vh::Ctx & c, vh::Rng & r, bool as_qu
     const M3 Rq = R_of_q(Q4{(LD)q2.w(), (LD)q2.x(), (LD)q2.y(), (LD)q2.z()});
     LD n2 = sqrtl(powl(q2.w(), 2) + powl(q2.x(), 2) + powl(q2.y(), 2) + powl(q2.z(), 2));
     bool f2 = finite3(Rq);
-    if (c.expect(on<S>("finite"), f2, "nonfinite", params, witb)) {
-      c.expect_le(on<S>("rotation.rotation_angles_quaternion"), frob(Rq, Rin) + fabsl(n2 - 1), tol, "rotation_roundtrip",
+    if (c.expect(ON("finite"), f2, "nonfinite", params, witb)) {
+      c.expect_le(ON("rotation.rotation_angles_quaternion"), frob(Rq, Rin) + fabsl(n2 - 1), tol, "rotation_roundtrip",
         params, [&]() {
           return vh::J().s("back", "eulerAnglesToQuaternion").f("w", (LD)q2.w()).f("x", (LD)q2.x()).f("y", (LD)q2.y())
                  .f("z", (LD)q2.z()).raw("case", witb()).str();
@@ -497,7 +511,7 @@ template<class S> static void rotation_case(vh::Ctx & c, vh::Rng & r, bool as_qu
   if (std::is_same<S, double>::value) {
     rc::SmartRotation3D s((double)ang[0], (double)ang[1], (double)ang[2]);
     const M3 Rsl = toM3(s.R());
-    c.count("smart_rotation_fresh");
+    c.count(istr("smart_rotation_fresh"));
     if (c.expect("finite.d", finite3(Rsl), "nonfinite", params, witb)) {
       c.expect_le("rotation.rotation_angles_smart.d", frob(Rsl, Rin), tol, "rotation_roundtrip", params, [&]() {
           return vh::J().s("back", "SmartRotation3D::R").raw("R_back", jm3(Rsl)).raw("case", witb()).str();
@@ -530,35 +544,36 @@ template<class S> static void normaliser_case(vh::Ctx & c, vh::Rng & r)
       k == 3 ? (S)(r.sign() * r.logu(1e-30, 1e-14)) : (S)(r.sign() * r.logu(1e-14, 1e-6));
   }
   // the library's documented precondition (an assert): strictly inside (-4pi, 4pi) as represented by 4*M_PI
+  if (std::fabs((double)v) > rc::M_4PI) {v = std::copysign((S)rc::M_4PI, v);}
   while (!((double)v > -rc::M_4PI && (double)v < rc::M_4PI)) {v = toward0(v);}
   LD lv = v;
-  c.cat(cat);
+  c.cat(istr(cat));
   bool trivial = std::is_same<S, double>::value && lv > 0.01L && lv < PI_L - 0.01L;    // already inside both intervals
   c.distinct(vh::hash_doubles({4.0, Tr<S>::id(), (double)v}), !trivial);
-  auto params = [&]() {return vh::Params{{"scalar", Tr<S>::id()}, {"angle", (double)v}};};
-  auto wit = [&]() {return vh::J().s("cat", cat).s("scalar", Tr<S>::sfx() + 1).f("angle", lv).str();};
-  c.sample(cat, wit);
+  const std::function<vh::Params()> params = [&]() {return vh::Params{{"scalar", Tr<S>::id()}, {"angle", (double)v}};};
+  const std::function<std::string()> wit = [&]() {return vh::J().s("cat", cat).s("scalar", Tr<S>::sfx() + 1).f("angle", lv).str();};
+  c.sample(istr(cat), wit);
 
   const LD tolc = K_NORM * eps<S>();
   {
     const S w = rc::between0And2Pi<S>(v);
-    auto ww = [&]() {return vh::J().s("fn", "between0And2Pi").f("result", (LD)w).raw("case", wit()).str();};
-    if (c.expect(on<S>("finite"), std::isfinite(w), "nonfinite", params, ww)) {
-      c.expect_le(on<S>("normaliser.0_2pi.congruent"), cdiff(w, lv), tolc, "normaliser_not_congruent", params, ww);
+    const std::function<std::string()> ww = [&]() {return vh::J().s("fn", "between0And2Pi").f("result", (LD)w).raw("case", wit()).str();};
+    if (c.expect(ON("finite"), std::isfinite(w), "nonfinite", params, ww)) {
+      c.expect_le(ON("normaliser.0_2pi.congruent"), cdiff(w, lv), tolc, "normaliser_not_congruent", params, ww);
       // closed interval [0, 2pi]; a float result may be the float nearest to 2pi, which lies above it
       LD slack = std::is_same<S, float>::value ? ulp_at<S>(TWO_PI_L) : 0.0L;
-      c.expect(on<S>("normaliser.0_2pi.interval"), w >= (S)0 && (LD)w <= TWO_PI_L + slack, "normaliser_out_of_interval",
+      c.expect(ON("normaliser.0_2pi.interval"), w >= (S)0 && (LD)w <= TWO_PI_L + slack, "normaliser_out_of_interval",
         params, ww);
-      if ((LD)w >= TWO_PI_L - 4 * ulp_at<S>(TWO_PI_L)) {c.count("normaliser_result_at_upper_end");}
+      if ((LD)w >= TWO_PI_L - 4 * ulp_at<S>(TWO_PI_L)) {c.count(istr("normaliser_result_at_upper_end"));}
     }
   }
   {
     const S w = rc::betweenMinusPiAndPi<S>(v);
-    auto ww = [&]() {return vh::J().s("fn", "betweenMinusPiAndPi").f("result", (LD)w).raw("case", wit()).str();};
-    if (c.expect(on<S>("finite"), std::isfinite(w), "nonfinite", params, ww)) {
-      c.expect_le(on<S>("normaliser.mpi_pi.congruent"), cdiff(w, lv), tolc, "normaliser_not_congruent", params, ww);
+    const std::function<std::string()> ww = [&]() {return vh::J().s("fn", "betweenMinusPiAndPi").f("result", (LD)w).raw("case", wit()).str();};
+    if (c.expect(ON("finite"), std::isfinite(w), "nonfinite", params, ww)) {
+      c.expect_le(ON("normaliser.mpi_pi.congruent"), cdiff(w, lv), tolc, "normaliser_not_congruent", params, ww);
       LD slack = std::is_same<S, float>::value ? ulp_at<S>(PI_L) : 0.0L;
-      c.expect(on<S>("normaliser.mpi_pi.interval"), fabsl((LD)w) <= PI_L + slack, "normaliser_out_of_interval", params, ww);
+      c.expect(ON("normaliser.mpi_pi.interval"), fabsl((LD)w) <= PI_L + slack, "normaliser_out_of_interval", params, ww);
     }
   }
 }
@@ -572,23 +587,23 @@ template<class S> static void rot2d_case(vh::Ctx & c, vh::Rng & r)
   const char * cat = "rot2d";
   S th = pick_turn_angle<S>(r, (int)r.range(0, 4));
   LD lt = th;
-  c.cat(cat);
+  c.cat(istr(cat));
   c.distinct(vh::hash_doubles({5.0, Tr<S>::id(), (double)th}), th != 0);
-  auto params = [&]() {return vh::Params{{"scalar", Tr<S>::id()}, {"angle", (double)th}};};
-  auto wit = [&]() {return vh::J().s("cat", cat).s("scalar", Tr<S>::sfx() + 1).f("angle", lt).str();};
-  c.sample(cat, wit);
+  const std::function<vh::Params()> params = [&]() {return vh::Params{{"scalar", Tr<S>::id()}, {"angle", (double)th}};};
+  const std::function<std::string()> wit = [&]() {return vh::J().s("cat", cat).s("scalar", Tr<S>::sfx() + 1).f("angle", lt).str();};
+  c.sample(istr(cat), wit);
 
   // angle -> R -> angle
   const Mat2 R = rc::eulerAngleToRotation2D<S>(th);
   LD a = R(0, 0), b = R(0, 1), cc = R(1, 0), d = R(1, 1);
   bool fin = std::isfinite((double)(a + b + cc + d));
-  auto wr = [&]() {return vh::J().f("r00", a).f("r01", b).f("r10", cc).f("r11", d).raw("case", wit()).str();};
-  if (!c.expect(on<S>("finite"), fin, "nonfinite", params, wr)) {return;}
+  const std::function<std::string()> wr = [&]() {return vh::J().f("r00", a).f("r01", b).f("r10", cc).f("r11", d).raw("case", wit()).str();};
+  if (!c.expect(ON("finite"), fin, "nonfinite", params, wr)) {return;}
   LD orth = sqrtl(powl(a * a + b * b - 1, 2) + powl(cc * cc + d * d - 1, 2) + 2 * powl(a * cc + b * d, 2));
-  c.expect_le(on<S>("rot2d.proper"), std::max(orth, fabsl(a * d - b * cc - 1)), K_2D * eps<S>(), "not_proper_rotation", params, wr);
+  c.expect_le(ON("rot2d.proper"), std::max(orth, fabsl(a * d - b * cc - 1)), K_2D * eps<S>(), "not_proper_rotation", params, wr);
   const S back = rc::rotation2DToEulerAngle<S>(R);
-  if (c.expect(on<S>("finite"), std::isfinite(back), "nonfinite", params, wr)) {
-    c.expect_le(on<S>("rot2d.angle_matrix_angle"), cdiff(back, lt), K_2D * eps<S>(), "rot2d_roundtrip", params, [&]() {
+  if (c.expect(ON("finite"), std::isfinite(back), "nonfinite", params, wr)) {
+    c.expect_le(ON("rot2d.angle_matrix_angle"), cdiff(back, lt), K_2D * eps<S>(), "rot2d_roundtrip", params, [&]() {
         return vh::J().f("angle_back", (LD)back).raw("R", wr()).str();
       });
   }
@@ -601,7 +616,7 @@ template<class S> static void rot2d_case(vh::Ctx & c, vh::Rng & r)
   const Mat2 Rb = rc::eulerAngleToRotation2D<S>(ag);
   LD df = sqrtl(powl((LD)Rb(0, 0) - (LD)Rg(0, 0), 2) + powl((LD)Rb(0, 1) - (LD)Rg(0, 1), 2) +
       powl((LD)Rb(1, 0) - (LD)Rg(1, 0), 2) + powl((LD)Rb(1, 1) - (LD)Rg(1, 1), 2));
-  c.expect_le(on<S>("rot2d.matrix_angle_matrix"), df, K_2D * eps<S>(), "rot2d_roundtrip", params, [&]() {
+  c.expect_le(ON("rot2d.matrix_angle_matrix"), df, K_2D * eps<S>(), "rot2d_roundtrip", params, [&]() {
       return vh::J().f("phi", phi).f("angle", (LD)ag).f("g00", (LD)Rg(0, 0)).f("g10", (LD)Rg(1, 0)).f("b00", (LD)Rb(0, 0))
              .f("b10", (LD)Rb(1, 0)).raw("case", wit()).str();
     });
@@ -627,24 +642,29 @@ template<class S> static void polar_case(vh::Ctx & c, vh::Rng & r)
     cat = "polar_axis";                                          // on / next to the axes and the branch cut
     az = (LD)((double)r.range(-2, 2) * M_PI / 2);
     if (r.coin(0.7)) {az += (LD)(r.sign() * r.logu(1e-17, 1e-3));}
+    az = remainderl(az, TWO_PI_L);
   }
   bool homogeneous = r.coin(0.4);
-  c.cat(cat);
-  c.cat(homogeneous ? "polar_homogeneous" : "polar_cartesian");
+  c.cat(istr(cat));
+  c.cat(istr(homogeneous ? "polar_homogeneous" : "polar_cartesian"));
   // ---- Cartesian point first
   S x = (S)((LD)rho * cosl(az)), y = (S)((LD)rho * sinl(az));
-  if (sub >= 50 && r.coin(0.3)) {(r.coin() ? x : y) = (S)(r.coin() ? 0.0 : -0.0);}      // exactly on an axis
+  if (sub >= 50 && r.coin(0.3)) {                                                      // exactly on an axis
+    bool zero_x = r.coin();
+    S zero = (S)(r.coin() ? 0.0 : -0.0), other = (S)(r.sign() * (double)rho);
+    if (zero_x) {x = zero; y = other;} else {y = zero; x = other;}
+  }
   LD nrm = hypotl((LD)x, (LD)y);
   c.distinct(vh::hash_doubles({6.0, Tr<S>::id(), (double)x, (double)y, homogeneous ? 1.0 : 0.0}),
     !(std::is_same<S, double>::value && sub < 50 && !homogeneous));
-  auto params = [&]() {
+  const std::function<vh::Params()> params = [&]() {
       return vh::Params{{"scalar", Tr<S>::id()}, {"x", (double)x}, {"y", (double)y}, {"norm", (double)nrm},
         {"homogeneous", homogeneous ? 1.0 : 0.0}};
     };
-  auto wit = [&]() {
+  const std::function<std::string()> wit = [&]() {
       return vh::J().s("cat", cat).s("scalar", Tr<S>::sfx() + 1).boolean("homogeneous", homogeneous).f("x", (LD)x).f("y", (LD)y).str();
     };
-  c.sample(cat, wit);
+  c.sample(istr(cat), wit);
   {
     S rg, azg, xb, yb;
     if (homogeneous) {
@@ -652,19 +672,19 @@ template<class S> static void polar_case(vh::Ctx & c, vh::Rng & r)
       rc::PolarCoordinates<S> pol = rc::toHomogeneous(p);        // (sic) the library's name for homogeneous -> polar
       rc::HomogeneousCoordinates2<S> pb = rc::toHomogeneous(pol);
       rg = pol.getRange(); azg = pol.getAzimut(); xb = pb.x(); yb = pb.y();
-      c.expect(on<S>("polar.homogeneous_w"), pb(2) == (S)1, "polar_roundtrip", params, wit);
+      c.expect(ON("polar.homogeneous_w"), pb(2) == (S)1, "polar_roundtrip", params, wit);
     } else {
       rc::CartesianCoordinates2<S> p(x, y);
       rc::PolarCoordinates<S> pol = rc::toPolar(p);
       rc::CartesianCoordinates2<S> pb = rc::toCartesian(pol);
       rg = pol.getRange(); azg = pol.getAzimut(); xb = pb.x(); yb = pb.y();
     }
-    auto w = [&]() {
+    const std::function<std::string()> w = [&]() {
         return vh::J().f("range", (LD)rg).f("azimut", (LD)azg).f("x_back", (LD)xb).f("y_back", (LD)yb).raw("case", wit()).str();
       };
     bool fin = std::isfinite(rg) && std::isfinite(azg) && std::isfinite(xb) && std::isfinite(yb);
-    if (c.expect(on<S>("finite"), fin, "nonfinite", params, w)) {
-      c.expect_le(on<S>("polar.cartesian_polar_cartesian"), hypotl((LD)xb - (LD)x, (LD)yb - (LD)y), K_COORD * eps<S>() * nrm,
+    if (c.expect(ON("finite"), fin, "nonfinite", params, w)) {
+      c.expect_le(ON("polar.cartesian_polar_cartesian"), hypotl((LD)xb - (LD)x, (LD)yb - (LD)y), K_COORD * eps<S>() * nrm,
         "polar_roundtrip", params, w);
     }
   }
@@ -680,17 +700,17 @@ template<class S> static void polar_case(vh::Ctx & c, vh::Rng & r)
       rc::PolarCoordinates<S> back = rc::toPolar(rc::toCartesian(pol));
       rb = back.getRange(); ab = back.getAzimut();
     }
-    auto p2 = [&]() {
+    const std::function<vh::Params()> p2 = [&]() {
         return vh::Params{{"scalar", Tr<S>::id()}, {"range", (double)rho}, {"azimut", (double)azS},
           {"homogeneous", homogeneous ? 1.0 : 0.0}};
       };
-    auto w = [&]() {
+    const std::function<std::string()> w = [&]() {
         return vh::J().s("cat", cat).s("scalar", Tr<S>::sfx() + 1).boolean("homogeneous", homogeneous).f("range", (LD)rho)
                .f("azimut", (LD)azS).f("range_back", (LD)rb).f("azimut_back", (LD)ab).str();
       };
-    if (c.expect(on<S>("finite"), std::isfinite(rb) && std::isfinite(ab), "nonfinite", p2, w)) {
+    if (c.expect(ON("finite"), std::isfinite(rb) && std::isfinite(ab), "nonfinite", p2, w)) {
       LD e = std::max(fabsl((LD)rb - (LD)rho) / (LD)rho, cdiff(ab, azS));
-      c.expect_le(on<S>("polar.polar_cartesian_polar"), e, K_COORD * eps<S>(), "polar_roundtrip", p2, w);
+      c.expect_le(ON("polar.polar_cartesian_polar"), e, K_COORD * eps<S>(), "polar_roundtrip", p2, w);
     }
   }
 }
@@ -755,11 +775,12 @@ template<class S> static void spherical_case(vh::Ctx & c, vh::Rng & r)
     el = k == 0 ? 0.0L : k == 1 ? PI_L / 2 : PI_L;
     az = (LD)((double)r.range(-2, 2) * M_PI / 2);
     if (r.coin(0.5)) {az += (LD)(r.sign() * r.logu(1e-17, 1e-3));}
+    az = remainderl(az, TWO_PI_L);
     if (r.coin(0.5)) {el = std::min(PI_L, std::max(0.0L, el + (LD)(r.sign() * r.logu(1e-17, 1e-3))));}
   }
   bool homogeneous = r.coin(0.4);
-  c.cat(cat);
-  c.cat(homogeneous ? "spherical_homogeneous" : "spherical_cartesian");
+  c.cat(istr(cat));
+  c.cat(istr(homogeneous ? "spherical_homogeneous" : "spherical_cartesian"));
 
   // ---- Cartesian point first
   S x = (S)((LD)rho * cosl(az) * sinl(el)), y = (S)((LD)rho * sinl(az) * sinl(el)), z = (S)((LD)rho * cosl(el));
@@ -773,16 +794,16 @@ template<class S> static void spherical_case(vh::Ctx & c, vh::Rng & r)
   LD sin_el = hypotl((LD)x, (LD)y) / nrm;
   c.distinct(vh::hash_doubles({7.0, Tr<S>::id(), (double)x, (double)y, (double)z, homogeneous ? 1.0 : 0.0}),
     !(std::is_same<S, double>::value && sub < 40 && !homogeneous && sin_el > 0.3L));
-  auto params = [&]() {
+  const std::function<vh::Params()> params = [&]() {
       return vh::Params{{"scalar", Tr<S>::id()}, {"x", (double)x}, {"y", (double)y}, {"z", (double)z}, {"norm", (double)nrm},
         {"sin_elevation", (double)sin_el}, {"homogeneous", homogeneous ? 1.0 : 0.0}};
     };
-  auto wit = [&]() {
+  const std::function<std::string()> wit = [&]() {
       return vh::J().s("cat", cat).s("scalar", Tr<S>::sfx() + 1).boolean("homogeneous", homogeneous).f("x", (LD)x).f("y", (LD)y)
              .f("z", (LD)z).str();
     };
-  c.sample(cat, wit);
-  if (sin_el < sqrtl(eps<S>())) {c.count("spherical_inside_acos_plateau");}
+  c.sample(istr(cat), wit);
+  if (sin_el < sqrtl(eps<S>())) {c.count(istr("spherical_inside_acos_plateau"));}
   {
     S rg, azg, elg, xb, yb, zb;
     if (homogeneous) {
@@ -790,22 +811,22 @@ template<class S> static void spherical_case(vh::Ctx & c, vh::Rng & r)
       rc::SphericalCoordinates<S> s = lib_to_spherical<S>(p);
       rc::HomogeneousCoordinates3<S> pb = rc::toHomogeneous(s);
       rg = s.getRange(); azg = s.getAzimut(); elg = s.getElevation(); xb = pb.x(); yb = pb.y(); zb = pb.z();
-      c.expect(on<S>("spherical.homogeneous_w"), pb(3) == (S)1, "spherical_roundtrip", params, wit);
+      c.expect(ON("spherical.homogeneous_w"), pb(3) == (S)1, "spherical_roundtrip", params, wit);
     } else {
       rc::CartesianCoordinates3<S> p(x, y, z);
       rc::SphericalCoordinates<S> s = lib_to_spherical<S>(p);
       rc::CartesianCoordinates3<S> pb = rc::toCartesian(s);
       rg = s.getRange(); azg = s.getAzimut(); elg = s.getElevation(); xb = pb.x(); yb = pb.y(); zb = pb.z();
     }
-    auto w = [&]() {
+    const std::function<std::string()> w = [&]() {
         return vh::J().f("range", (LD)rg).f("azimut", (LD)azg).f("elevation", (LD)elg).f("x_back", (LD)xb).f("y_back", (LD)yb)
                .f("z_back", (LD)zb).raw("case", wit()).str();
       };
     bool fin = std::isfinite(rg) && std::isfinite(azg) && std::isfinite(elg) && std::isfinite(xb) && std::isfinite(yb) &&
       std::isfinite(zb);
-    if (c.expect(on<S>("finite"), fin, "nonfinite", params, w)) {
+    if (c.expect(ON("finite"), fin, "nonfinite", params, w)) {
       LD d = sqrtl(powl((LD)xb - x, 2) + powl((LD)yb - y, 2) + powl((LD)zb - z, 2));
-      c.expect_le(on<S>("spherical.cartesian_spherical_cartesian"), d, nrm * (K_COORD * eps<S>() + acos_term<S>(sin_el)),
+      c.expect_le(ON("spherical.cartesian_spherical_cartesian"), d, nrm * (K_COORD * eps<S>() + acos_term<S>(sin_el)),
         "spherical_roundtrip", params, w);
     }
   }
@@ -825,27 +846,27 @@ template<class S> static void spherical_case(vh::Ctx & c, vh::Rng & r)
       rc::SphericalCoordinates<S> back = lib_to_spherical<S>(rc::toCartesian(s));
       rb = back.getRange(); ab = back.getAzimut(); eb = back.getElevation();
     }
-    auto p2 = [&]() {
+    const std::function<vh::Params()> p2 = [&]() {
         return vh::Params{{"scalar", Tr<S>::id()}, {"range", (double)rho}, {"azimut", (double)azS}, {"elevation", (double)elS},
           {"sin_elevation", (double)se}, {"homogeneous", homogeneous ? 1.0 : 0.0}};
       };
-    auto w = [&]() {
+    const std::function<std::string()> w = [&]() {
         return vh::J().s("cat", cat).s("scalar", Tr<S>::sfx() + 1).boolean("homogeneous", homogeneous).f("range", (LD)rho)
                .f("azimut", (LD)azS).f("elevation", (LD)elS).f("range_back", (LD)rb).f("azimut_back", (LD)ab)
                .f("elevation_back", (LD)eb).str();
       };
-    if (c.expect(on<S>("finite"), std::isfinite(rb) && std::isfinite(ab) && std::isfinite(eb), "nonfinite", p2, w)) {
-      c.expect_le(on<S>("spherical.range_back"), fabsl((LD)rb - (LD)rho) / (LD)rho, K_COORD * eps<S>(), "spherical_roundtrip", p2, w);
+    if (c.expect(ON("finite"), std::isfinite(rb) && std::isfinite(ab) && std::isfinite(eb), "nonfinite", p2, w)) {
+      c.expect_le(ON("spherical.range_back"), fabsl((LD)rb - (LD)rho) / (LD)rho, K_COORD * eps<S>(), "spherical_roundtrip", p2, w);
       // elevation: sin(el) |el' - el| <= min(2D/sin, sqrt(2D)) sin  =>  |el' - el| <= min(2D/sin(el), ~sqrt(2D)) ...
       // near the poles the angle itself moves by up to sqrt(2 D) (acos plateau), away from them by 2D/sin(el)
-      c.expect_le(on<S>("spherical.elevation_back"), fabsl((LD)eb - (LD)elS), K_COORD * eps<S>() + 2 * acos_term<S>(se),
+      c.expect_le(ON("spherical.elevation_back"), fabsl((LD)eb - (LD)elS), K_COORD * eps<S>() + 2 * acos_term<S>(se),
         "spherical_roundtrip", p2, w);
       // azimuth is undefined on the polar axis (sin(el) = 0, or x and y underflow)
       LD xs = fabsl((LD)rho * se);
       if (se < 1e-12L || xs < 1e3L * (LD)std::numeric_limits<S>::min()) {
-        c.skip(std::string(on<S>("spherical.azimut_back")) + ":polar_axis");
+        {static const std::string sk = std::string(ON("spherical.azimut_back")) + ":polar_axis"; c.skip(sk);}
       } else {
-        c.expect_le(on<S>("spherical.azimut_back"), cdiff(ab, azS), K_COORD * eps<S>(), "spherical_roundtrip", p2, w);
+        c.expect_le(ON("spherical.azimut_back"), cdiff(ab, azS), K_COORD * eps<S>(), "spherical_roundtrip", p2, w);
       }
     }
   }
@@ -854,7 +875,7 @@ template<class S> static void spherical_case(vh::Ctx & c, vh::Rng & r)
 // ------------------------------------------------------------------------------------------------
 template<class S> static void dispatch(vh::Ctx & c, vh::Rng & r, int fam)
 {
-  c.cat(std::is_same<S, float>::value ? "scalar_float" : "scalar_double");
+  c.cat(istr(std::is_same<S, float>::value ? "scalar_float" : "scalar_double"));
   if (fam < 26) {euler_case<S>(c, r);} else if (fam < 40) {rotation_case<S>(c, r, false);} else if (fam < 52) {
     rotation_case<S>(c, r, true);
   } else if (fam < 70) {normaliser_case<S>(c, r);} else if (fam < 77) {rot2d_case<S>(c, r);} else if (fam < 86) {
